@@ -59,6 +59,17 @@ SparseWeightMatrix tangent_weight_matrix(RandomAccessIterator begin, RandomAcces
             // UNRESTRICT_ALLOC;
             solver.compute(gram_matrix);
             G.rightCols(target_dimension).noalias() = solver.eigenvectors().rightCols(target_dimension);
+            // eigenvectors of a zero eigenvalue (neighborhood spanning fewer than target_dimension
+            // directions) are arbitrary and need not be orthogonal to the constant column
+            for (IndexType i = 1; i < static_cast<IndexType>(G.cols()); i++)
+            {
+                for (IndexType j = 0; j < i; j++)
+                {
+                    ScalarType r = G.col(i).dot(G.col(j));
+                    G.col(i) -= r * G.col(j);
+                }
+                G.col(i) /= G.col(i).norm();
+            }
             // RESTRICT_ALLOC;
             gram_matrix.noalias() = G * G.transpose();
 
